@@ -1,6 +1,7 @@
 (** C20 — Length-prefixed record streams decode identically under every chunking.
     This file contains statements only; every proof is [exact <lemma>]. *)
-From RN Require Import Base.Res Codec.Varint Codec.BufReader Codec.VarintBits Codec.VarintProofs.
+From RN Require Import Base.Res Codec.Varint Codec.BufReader Codec.VarintBits Codec.VarintProofs
+  Codec.BufReaderProofs.
 Local Open Scope N_scope.
 
 (** the varint writer and reader agree on every 64-bit value, at every offset, whatever
@@ -26,3 +27,20 @@ Proof. exact varint_canonical. Qed.
 Theorem C20_reader_is_leb128_loop : forall bs off,
   all_bytes bs -> read_varint bs off = res_map trunc64 (dec_loop 10 (skipn off bs)).
 Proof. exact read_varint_loop. Qed.
+
+(** Chunking invariance.  [recs] are the record bodies (non-empty, bytes, length < 2^64),
+    [pad] is what follows the last record: nothing, or a zero length followed by arbitrary
+    bytes.  For EVERY partition [chunks] of the byte stream the EOF-terminated consumer
+    loop over the literal MessageBufReader model (reused buffer, stale bytes, doubling
+    expansion) returns exactly the written frames in order: nothing dropped, nothing
+    added, nothing after the first zero length. *)
+Theorem C20_chunking_invariance : forall recs pad chunks,
+  Forall rec_ok recs -> pad_ok pad -> concat chunks = stream recs pad ->
+  feed_drain chunks mbr_new = Ok (map frame recs).
+Proof. exact chunking_invariance. Qed.
+
+Theorem C20_chunking_independent : forall recs pad chunks1 chunks2,
+  Forall rec_ok recs -> pad_ok pad ->
+  concat chunks1 = stream recs pad -> concat chunks2 = stream recs pad ->
+  feed_drain chunks1 mbr_new = feed_drain chunks2 mbr_new.
+Proof. exact chunking_independent. Qed.
